@@ -78,7 +78,21 @@ func WConfig(prop, tier string) *Config {
 	if pp, ok := paramPhases[prop]; ok {
 		first := autoCfgAllNamesFor(pp.mods...)
 		second := append([]string{"empty"}, pp.follow...)
-		cfg.Phases = append(cfg.Phases, Phase{Name: "module-params-depth2", Roots: []string{"R1"}, Ops: append(append([]string{}, first...), second...), First: first, Second: second, Depth: 2, Dev: 3})
+		// a switch flipped and flipped BACK (second op = any boolean parameter of the same modules): the
+		// default configuration again, reached through its opposite
+		for _, n := range first {
+			if strings.HasSuffix(n, "=toggle") {
+				second = append(second, n)
+			}
+		}
+		cfg.Phases = append(cfg.Phases, Phase{Name: "module-params-depth2", Roots: []string{"R1"}, Ops: append(append([]string{}, first...), second...), First: first, Second: second, Depth: 2, Dev: 4})
+	}
+	// SAME-BLOCK interleavings: every ordered triple of different ops of a small per-property set as ONE
+	// block (different signers; each component planned on the pre-block state), then an empty block — what
+	// one transaction leaves in per-block (transient) state for the next one and for the end-blockers
+	if set, ok := sameBlockSets[prop]; ok {
+		tr := blockTriples(set)
+		cfg.Phases = append(cfg.Phases, Phase{Name: "same-block-triples-depth2", Roots: []string{"R0", "R1"}, Ops: append(append([]string{}, tr...), "empty"), First: tr, Second: []string{"empty"}, Depth: 2, Dev: 4})
 	}
 	if tier != "thorough" {
 		return devOnlyPhase(cfg)
@@ -218,6 +232,16 @@ func wConfig(prop, tier string) *Config {
 			cfg.Phases = []Phase{{Name: "full-depth2", Roots: []string{"R0", "R1", "R4", "R9"}, Ops: ops, Depth: 2, Dev: 2}}
 			cfg.NodeHook = C13Drain(1)
 		}
+		// a reward denom delisted and relisted by governance WHILE an incentive paying it runs (root R18), with
+		// joins, exits and claims in between
+		{
+			dl := []string{"cfg_mc_delist_uatom", "cfg_mc_relist_uatom", "join_p2_big_t1", "exit_p2_half_lp1", "mc_claim_t1", "mc_claim_lp1", "empty"}
+			d := 4
+			if thorough {
+				d = 5
+			}
+			cfg.Phases = append(cfg.Phases, Phase{Name: fmt.Sprintf("delisting-depth%d", d), Roots: []string{"R18"}, Ops: dl, First: []string{"cfg_mc_delist_uatom", "join_p2_big_t1"}, Depth: d, Dev: 4})
+		}
 	case "C15":
 		ops := []string{"swap_in_p1_usdc_atom_L", "swap_out_p2_elys_usdc_L", "swap_fail_minout_p1", "join_p1_all_t1", "join_p2_all_t1", "exit_p1_10pct_lp1", "exit_p2_half_lp1", "exit_p2_all_t1", "create_pool_lp1",
 			"perp_open_long_t1", "perp_open_short_t2", "perp_close_full_t1", "perp_bot_close_all", "llp_open_t1_x3", "llp_close_full_t1", "llp_bot_close_all", "bond_lp1_L", "unbond_lp2_half", "unbond_lp2_all",
@@ -344,4 +368,8 @@ var paramPhases = map[string]paramPhase{
 	"C12": {[]string{"/elys.commitment.", "/elys.estaking.", "/elys.masterchef.MsgUpdateParams"}, []string{"commit_eden_lp1", "uncommit_eden_lp1", "unstake_elys_lp1", "vest_eden_lp1", "mc_claim_lp1", "unbond_lp2_half"}},
 	"C13": {[]string{"/elys.masterchef.", "/elys.estaking."}, []string{"swap_in_p1_usdc_atom_L", "fee_tx_uatom", "mc_claim_lp1", "join_p2_big_t1", "exit_p2_half_lp1", "gap_1d"}},
 	"C15": {[]string{"/elys.commitment.", "/elys.tokenomics.", "/elys.estaking."}, []string{"vest_eden_lp1", "claim_vesting_lp1", "vest_now_lp1", "mc_claim_lp1", "gap_1d", "stake_elys_lp1"}},
+}
+
+var sameBlockSets = map[string][]string{
+	"C02": {"join_p2_all_t1", "join_p2_all_lp2", "exit_p2_half_lp1", "swap_in_p2_elys_usdc_D", "fee_tx_uelys", "fee_tx_uatom", "join_p1_all_t1", "exit_p1_10pct_lp1"},
 }
